@@ -335,8 +335,525 @@ class Inliner:
 def dissolve_new_helpers(prog):
     """rewrite every library function of the program in place; returns the list of (caller, helper, location) substitutions"""
     inl = Inliner(prog)
+    pw = PointerWalks(prog)
+    cg = ContinueGuards()
+    nn = NewNames(prog)
+    lf = LoopForms()
     for f in list(prog.functions.values()):
         if 'body' not in f or not str((f.get('l') or ('',))[0]).startswith(('src/', 'include/')):
             continue
         inl.rewrite_fn(f)
-    return inl.sites
+        pw.rewrite_fn(f)
+        lf.rewrite_fn(f)
+        cg.rewrite_fn(f)
+        nn.rewrite_fn(f)
+    return inl.sites + pw.sites + cg.sites + nn.sites + lf.sites
+
+
+# ------------------------------------------------------------------------------------------------ pointer walks
+INT_T = {'k': 'int', 'size': 4, 'signed': True, 's': 'int'}
+
+
+def _canon_expr(e):
+    """structural key of a side-effect free expression (types and locations ignored)"""
+    e = _unwrap(e)
+    if isinstance(e, dict):
+        return tuple(sorted((k, _canon_expr(v)) for k, v in e.items() if k not in ('t', 'l', 'lv', 'implicit', 'ck')))
+    if isinstance(e, list):
+        return tuple(_canon_expr(x) for x in e)
+    return e
+
+
+_BASE_LOCALS = None
+
+
+def baseline_locals():
+    global _BASE_LOCALS
+    if _BASE_LOCALS is None:
+        import os
+        p = os.path.join(os.path.dirname(os.path.abspath(__file__)), 'baseline_locals.txt')
+        _BASE_LOCALS = set(tuple(x.rstrip('\n').split('\t')) for x in open(p) if x.strip()) if os.path.exists(p) else None
+    return _BASE_LOCALS
+
+
+class NewNames:
+    """A reference local, or a const-qualified scalar / boolean local, that the tree the rule tables were written for does not have is a
+    new NAME for an expression.  When the initialiser is side-effect free and nothing it reads (parameters, locals) is written anywhere in
+    the function, every use of the name is the initialiser: the name is substituted away.  (Names whose operands do change - a slot
+    reference taken inside a loop - are the CFG's business: CFG.live_const_locals.)"""
+
+    def __init__(self, prog):
+        self.prog = prog
+        self.sites = []
+
+    def rewrite_fn(self, f):
+        base = baseline_locals()
+        if base is None:
+            return
+        fq = strip_tmpl(f['qn'])
+        if fq not in baseline():
+            return
+        written = set()
+        for x in walk(f['body']):
+            if not isinstance(x, dict):
+                continue
+            tgt = None
+            if x.get('k') == 'assign':
+                tgt = x.get('lhs')
+            elif x.get('k') == 'un' and x.get('op') in ('++', '--'):
+                tgt = x.get('e')
+            if tgt is not None:
+                t = _unwrap(tgt)
+                if isinstance(t, dict) and t.get('k') == 'ref' and t.get('rk') in ('local', 'param'):
+                    written.add((t['rk'], t.get('id')))
+            # a variable whose address escapes, or that is handed to a callee that may write it, counts as written
+            if x.get('k') == 'un' and x.get('op') == '&':
+                for y in walk(x.get('e')):
+                    if isinstance(y, dict) and y.get('k') == 'ref' and y.get('rk') in ('local', 'param'):
+                        written.add((y['rk'], y.get('id')))
+            if x.get('k') in ('call', 'icall'):
+                cal = self.prog.callee(x, f) if x.get('k') == 'call' else None
+                th = x.get('this')
+                if th is not None and not (cal or {}).get('const_method'):
+                    r0 = _unwrap(th)
+                    while isinstance(r0, dict) and r0.get('k') in ('member', 'index'):
+                        r0 = _unwrap(r0.get('base'))
+                    if isinstance(r0, dict) and r0.get('k') == 'ref' and r0.get('rk') in ('local', 'param'):
+                        written.add((r0['rk'], r0.get('id')))
+                for i_, a in enumerate(x.get('args', [])):
+                    pt = (cal['params'][i_]['t'] if cal is not None and i_ < len(cal.get('params', [])) else None)
+                    may = pt is None or (pt.get('k') in ('ref', 'ptr') and not (pt.get('pointee') or {}).get('const'))
+                    if may and pt is None and (_unwrap(a).get('t') or {}).get('k') not in ('ptr', 'ref', 'array', 'record'):
+                        may = False
+                    if may:
+                        r0 = _unwrap(a)
+                        while isinstance(r0, dict) and r0.get('k') in ('member', 'index', 'un'):
+                            r0 = _unwrap(r0.get('base') if r0.get('k') != 'un' else r0.get('e'))
+                        if isinstance(r0, dict) and r0.get('k') == 'ref' and r0.get('rk') in ('local', 'param') and \
+                                (pt is not None and pt.get('k') == 'ref' or (r0.get('t') or {}).get('k') != 'ptr'):
+                            written.add((r0['rk'], r0.get('id')))
+        subs = {}
+        for x in walk(f['body']):
+            if isinstance(x, dict) and x.get('k') == 'decl' and len(x.get('vars', [])) == 1:
+                v = x['vars'][0]
+                t = v.get('t') or {}
+                ini = v.get('init')
+                if ini is None or v.get('id') is None or (fq, v.get('name')) in base:
+                    continue
+                isref = t.get('k') == 'ref'
+                isconst = t.get('const') and t.get('k') in ('int', 'bool', 'enum')
+                if not (isref or isconst) or not self._readonly(ini, f):
+                    continue
+                if any(isinstance(y, dict) and y.get('k') == 'this' for y in walk(ini)):
+                    continue
+                roots = {(y.get('rk'), y.get('id')) for y in walk(ini) if isinstance(y, dict) and y.get('k') == 'ref' and y.get('rk') in ('local', 'param')}
+                if roots & written or ('local', v['id']) in written:
+                    continue
+                if any(isinstance(y, dict) and y.get('k') == 'index' for y in walk(ini)) and isref:
+                    # an element selected by a variable index: only if the index is constant
+                    if any(isinstance(y, dict) and y.get('k') == 'index' and 'cv' not in (_unwrap(y.get('idx')) or {}) for y in walk(ini)):
+                        continue
+                subs[v['id']] = (v, ini, isref)
+        if not subs:
+            return
+        # every use must be substitutable: a reference local anywhere; a scalar only where it is read
+        bad = set()
+
+        def scan(e, parent_is_load):
+            if isinstance(e, list):
+                for y in e:
+                    scan(y, False)
+                return
+            if not isinstance(e, dict):
+                return
+            if e.get('k') == 'ref' and e.get('rk') == 'local' and e.get('id') in subs and not subs[e['id']][2] and not parent_is_load:
+                bad.add(e['id'])
+            for k, v_ in e.items():
+                if k in _SKIP:
+                    continue
+                if isinstance(v_, (dict, list)):
+                    scan(v_, e.get('k') == 'load' and k == 'e')
+        scan(f['body'], False)
+        for b in bad:
+            subs.pop(b, None)
+        if not subs:
+            return
+
+        def fix(n):
+            if n.get('k') == 'decl' and len(n.get('vars', [])) == 1 and n['vars'][0].get('id') in subs:
+                return {'k': 'null', 'l': n.get('l')}
+            if n.get('k') == 'load' and isinstance(n.get('e'), dict) and n['e'].get('k') == 'ref' and n['e'].get('rk') == 'local' and \
+                    n['e'].get('id') in subs and not subs[n['e']['id']][2]:
+                return subs[n['e']['id']][1]
+            if n.get('k') == 'ref' and n.get('rk') == 'local' and n.get('id') in subs and subs[n['id']][2]:
+                return subs[n['id']][1]
+            return None
+        for _ in range(3):      # names defined through names
+            f['body'] = _copy(f['body'], fix)
+        for vid, (v, ini, isref) in subs.items():
+            self.sites.append((f['qn'], 'new name %s' % v.get('name'), v.get('l')))
+
+    def _readonly(self, e, f):
+        for x in walk(e):
+            if not isinstance(x, dict):
+                continue
+            if x.get('k') in ('assign', 'lcall', 'lambda') or (x.get('k') == 'un' and x.get('op') in ('++', '--')):
+                return False
+            if x.get('k') == 'call':
+                cal = self.prog.callee(x, f)
+                if cal is None:
+                    return False
+                if x.get('this') is not None and not (cal.get('const_method') or cal.get('static')):
+                    return False
+                for p in cal.get('params', []):
+                    t = p.get('t') or {}
+                    if t.get('k') in ('ptr', 'ref') and not (p.get('pointee_const') or (t.get('pointee') or {}).get('const')):
+                        return False
+        return True
+
+
+BOOL_T = {'k': 'bool', 'size': 1, 's': 'bool'}
+
+
+class LoopForms:
+    """Two loop forms the tree the tables were written for does not contain are rewritten into the ones it does:
+      *  `for (;;) { B; if (c) break; }` / `while (true) {...}`  (one break, last statement, no continue)   ->  `do { B } while (!c);`
+      *  `for (CALL; c; E3) B`  with a call expression as initialiser and no continue in B            ->  `CALL; while (c) { B; E3; }`"""
+
+    def __init__(self):
+        self.sites = []
+
+    def rewrite_fn(self, f):
+        self.f = f
+        f['body'] = self._stmt(f['body'])
+
+    def _stmt(self, s):
+        if isinstance(s, list):
+            out = []
+            for x in s:
+                r = self._stmt(x)
+                if isinstance(r, dict) and r.get('k') == 'compound' and r.get('spliced'):
+                    out += r['body']
+                else:
+                    out.append(r)
+            return out
+        if not isinstance(s, dict):
+            return s
+        k = s.get('k')
+        out = dict(s)
+        for key in ('body', 'then', 'else', 'taken'):
+            if isinstance(s.get(key), (dict, list)) and k in ('compound', 'if', 'constexpr_if', 'for', 'while', 'do'):
+                out[key] = self._stmt(s[key])
+        if k in ('for', 'while'):
+            out = self._leading_break(out)
+            r = self._infinite(out) or self._call_init(out) or self._no_init(out)
+            if r is not None:
+                return r
+        return out
+
+    def _leading_break(self, s):
+        """`LOOP (c1) { if (c2) break; REST }`  ->  `LOOP (c1 && !c2) { REST }`  (leaving before anything ran is not entering)"""
+        body = s.get('body') or {}
+        stmts = list(body.get('body', [])) if body.get('k') == 'compound' else [body]
+        stmts = [x for x in stmts if isinstance(x, dict) and x.get('k') != 'null']
+        if not stmts or s.get('c') is None:
+            return s
+        first = stmts[0]
+        if not (first.get('k') == 'if' and first.get('else') is None):
+            return s
+        th = first.get('then') or {}
+        tb = th.get('body', []) if th.get('k') == 'compound' else [th]
+        if len(tb) != 1 or tb[0].get('k') != 'break' or not _pure(first['c']) and not all(
+                isinstance(x, dict) and x.get('k') != 'assign' for x in walk(first['c'])):
+            return s
+        neg = {'k': 'un', 'op': '!', 'e': first['c'], 't': BOOL_T, 'l': first.get('l')}
+        cond = {'k': 'bin', 'op': '&&', 'lhs': s['c'], 'rhs': neg, 't': BOOL_T, 'l': s.get('l')}
+        self.sites.append((self.f['qn'], 'leading guarded break', first.get('l')))
+        return dict(s, c=cond, body={'k': 'compound', 'l': body.get('l'), 'body': stmts[1:]})
+
+    def _no_init(self, s):
+        """`for (; c; E3) B` without continue in B  ->  `while (c) { B; E3; }`"""
+        if s.get('k') != 'for' or s.get('init') is not None or s.get('c') is None or s.get('inc') is None:
+            return None
+        body = s.get('body') or {'k': 'compound', 'body': []}
+        if any(isinstance(x, dict) and x.get('k') == 'continue' and not self._in_inner_loop(body, x) for x in walk(body)):
+            return None
+        stmts = list(body.get('body', [])) if body.get('k') == 'compound' else [body]
+        stmts = [x for x in stmts if x.get('k') != 'null'] + [{'k': 'expr', 'e': s['inc'], 'l': s.get('l')}]
+        self.sites.append((self.f['qn'], 'for without initialiser', s.get('l')))
+        return {'k': 'while', 'l': s.get('l'), 'c': s['c'], 'body': {'k': 'compound', 'l': s.get('l'), 'body': stmts}}
+
+    @staticmethod
+    def _true(c):
+        if c is None:
+            return True
+        u = _unwrap(c)
+        return isinstance(u, dict) and ((u.get('k') == 'lit' and u.get('bool') is True) or str(u.get('cv')) == '1')
+
+    def _infinite(self, s):
+        if s.get('k') == 'for' and (s.get('init') is not None or s.get('inc') is not None):
+            return None
+        if not self._true(s.get('c')):
+            return None
+        body = s.get('body') or {}
+        stmts = list(body.get('body', [])) if body.get('k') == 'compound' else [body]
+        if not stmts:
+            return None
+        last = stmts[-1]
+        if not (isinstance(last, dict) and last.get('k') == 'if' and last.get('else') is None):
+            return None
+        th = last.get('then') or {}
+        tb = th.get('body', []) if th.get('k') == 'compound' else [th]
+        if len(tb) != 1 or tb[0].get('k') != 'break':
+            return None
+        head = stmts[:-1]
+        if any(isinstance(x, dict) and x.get('k') in ('break', 'continue') for h in head for x in walk(h)
+               if not self._in_inner_loop(h, x)):
+            return None
+        cond = {'k': 'un', 'op': '!', 'e': last['c'], 't': BOOL_T, 'l': last.get('l')}
+        self.sites.append((self.f['qn'], 'infinite loop with a trailing break', s.get('l')))
+        return {'k': 'do', 'l': s.get('l'), 'c': cond, 'body': {'k': 'compound', 'l': body.get('l'), 'body': head}}
+
+    @staticmethod
+    def _in_inner_loop(root, node):
+        # is `node` inside a loop nested in `root` (then its break / continue is not ours)?
+        def rec(x, inside):
+            if x is node:
+                return inside
+            if isinstance(x, dict):
+                ins = inside or x.get('k') in ('for', 'while', 'do', 'switch')
+                for k_, v in x.items():
+                    if k_ in _SKIP:
+                        continue
+                    if isinstance(v, (dict, list)):
+                        r = rec(v, ins)
+                        if r is not None:
+                            return r
+            elif isinstance(x, list):
+                for y in x:
+                    r = rec(y, inside)
+                    if r is not None:
+                        return r
+            return None
+        return bool(rec(root, False))
+
+    def _call_init(self, s):
+        if s.get('k') != 'for' or s.get('init') is None or s.get('c') is None:
+            return None
+        init = s['init']
+        if init.get('k') != 'expr' or _unwrap(init.get('e')).get('k') != 'call':
+            return None
+        body = s.get('body') or {'k': 'compound', 'body': []}
+        if any(isinstance(x, dict) and x.get('k') == 'continue' and not self._in_inner_loop(body, x) for x in walk(body)):
+            return None
+        stmts = list(body.get('body', [])) if body.get('k') == 'compound' else [body]
+        stmts = [x for x in stmts if x.get('k') != 'null']
+        if s.get('inc') is not None:
+            stmts = stmts + [{'k': 'expr', 'e': s['inc'], 'l': s.get('l')}]
+        self.sites.append((self.f['qn'], 'for with a call as initialiser', s.get('l')))
+        wl = {'k': 'while', 'l': s.get('l'), 'c': s['c'], 'body': {'k': 'compound', 'l': s.get('l'), 'body': stmts}}
+        return {'k': 'compound', 'spliced': True, 'l': s.get('l'), 'body': [init, wl]}
+
+
+class ContinueGuards:
+    """inside a loop body, `if (c) { continue; } REST` (the `if` at the top level of the body, no else) is `if (c) { } else { REST }`:
+    the nested form is the one the rule tables were written for.  `if (c) { S; continue; } REST` becomes `if (c) { S } else { REST }`."""
+
+    def __init__(self):
+        self.sites = []
+
+    def rewrite_fn(self, f):
+        self.f = f
+        f['body'] = self._stmt(f['body'])
+
+    def _stmt(self, s):
+        if isinstance(s, list):
+            return [self._stmt(x) for x in s]
+        if not isinstance(s, dict):
+            return s
+        k = s.get('k')
+        out = dict(s)
+        if k in ('for', 'while', 'do') and isinstance(s.get('body'), dict):
+            b = self._stmt(s['body'])
+            out['body'] = self._guards(b)
+            return out
+        for key in ('body', 'then', 'else', 'taken'):
+            if isinstance(s.get(key), (dict, list)) and k in ('compound', 'if', 'constexpr_if'):
+                out[key] = self._stmt(s[key])
+        return out
+
+    @staticmethod
+    def _ends_with_continue(s):
+        """(statements before the continue) when the block is `{ ...; continue; }` with no other continue / break inside, else None"""
+        stmts = list(s.get('body', [])) if s.get('k') == 'compound' else [s]
+        if not stmts or stmts[-1].get('k') != 'continue':
+            return None
+        head = stmts[:-1]
+        if any(isinstance(x, dict) and x.get('k') in ('continue', 'break') for h in head for x in walk(h)):
+            return None
+        return head
+
+    def _guards(self, body):
+        if not (isinstance(body, dict) and body.get('k') == 'compound'):
+            return body
+        stmts = list(body.get('body', []))
+        for i, st in enumerate(stmts):
+            if isinstance(st, dict) and st.get('k') == 'if' and st.get('else') is None and isinstance(st.get('then'), dict):
+                head = self._ends_with_continue(st['then'])
+                if head is None:
+                    continue
+                rest = self._guards({'k': 'compound', 'l': st.get('l'), 'body': stmts[i + 1:]})
+                new_if = dict(st, then={'k': 'compound', 'l': st.get('l'), 'body': head}, **{'else': rest})
+                self.sites.append((self.f['qn'], 'continue guard', st.get('l')))
+                return dict(body, body=stmts[:i] + [new_if])
+        return body
+
+
+class PointerWalks:
+    """`for (T* p = BASE; p != BASE + N; p++) ... p->m ... *p ...` is the index loop `for (int i = 0; i != N; i++) ... BASE[i].m ...
+    BASE[i] ...` when p is stepped only by the loop header and BASE, N are not written in the body: the rule tables speak of the
+    index form."""
+
+    def __init__(self, prog):
+        self.prog = prog
+        self.sites = []
+        self.count = 0
+
+    def rewrite_fn(self, f):
+        names = {p.get('name') for p in f.get('params', [])}
+        decls = {}
+        for x in walk(f['body']):
+            if isinstance(x, dict) and x.get('k') == 'decl':
+                for v in x.get('vars', []):
+                    names.add(v.get('name'))
+                    if v.get('id') is not None:
+                        decls[v['id']] = v
+        self.f, self.names, self.decls = f, names, decls
+        f['body'] = self._stmt(f['body'])
+
+    def _stmt(self, s):
+        if isinstance(s, list):
+            return [self._stmt(x) for x in s]
+        if not isinstance(s, dict):
+            return s
+        k = s.get('k')
+        if k == 'for':
+            r = self._try(s)
+            if r is not None:
+                s = r
+        out = dict(s)
+        for key in ('body', 'then', 'else', 'taken'):
+            if isinstance(s.get(key), (dict, list)) and k in ('compound', 'if', 'for', 'while', 'do', 'constexpr_if'):
+                out[key] = self._stmt(s[key])
+        return out
+
+    def _roots_written(self, body, exprs):
+        roots = set()
+        for e in exprs:
+            for y in walk(e):
+                if isinstance(y, dict) and y.get('k') == 'ref' and y.get('rk') in ('local', 'param'):
+                    roots.add((y.get('rk'), y.get('id')))
+        for x in walk(body):
+            if not isinstance(x, dict):
+                continue
+            tgt = None
+            if x.get('k') == 'assign':
+                tgt = x.get('lhs')
+            elif x.get('k') == 'un' and x.get('op') in ('++', '--'):
+                tgt = x.get('e')
+            if tgt is not None:
+                t = _unwrap(tgt)
+                # a write to the variable itself (not through it): BASE / N as expressions change
+                if isinstance(t, dict) and t.get('k') == 'ref' and (t.get('rk'), t.get('id')) in roots:
+                    return True
+        return False
+
+    def _try(self, s):
+        init, c, inc, body = s.get('init'), s.get('c'), s.get('inc'), s.get('body')
+        if not (init and init.get('k') == 'decl' and len(init.get('vars', [])) == 1 and c and inc and body):
+            return None
+        v = init['vars'][0]
+        t = v.get('t') or {}
+        if t.get('k') != 'ptr' or v.get('init') is None or not ((t.get('pointee') or {}).get('size')):
+            return None
+        pid = v['id']
+        base = v['init']
+        if not _pure(base):
+            return None
+        ui = _unwrap(inc)
+        if not (isinstance(ui, dict) and ui.get('k') == 'un' and ui.get('op') == '++' and _unwrap(ui.get('e')).get('id') == pid):
+            return None
+        uc = strip(c)
+        while isinstance(uc, dict) and uc.get('k') in ('cast', 'paren'):
+            uc = strip(uc['e'])
+        if not (isinstance(uc, dict) and uc.get('k') == 'bin' and uc.get('op') in ('!=', '<')):
+            return None
+        l, r = _unwrap(uc['lhs']), _unwrap(uc['rhs'])
+        if not (isinstance(l, dict) and l.get('k') == 'ref' and l.get('id') == pid):
+            return None
+        endx = r
+        if isinstance(r, dict) and r.get('k') == 'ref' and r.get('rk') == 'local':
+            dv = self.decls.get(r.get('id'))
+            if dv is None or dv.get('init') is None or not (dv.get('t') or {}).get('const'):
+                return None
+            endx = _unwrap(dv['init'])
+        if not (isinstance(endx, dict) and endx.get('k') == 'bin' and endx.get('op') == '+'):
+            return None
+        if _canon_expr(endx['lhs']) == _canon_expr(base):
+            nexpr = endx['rhs']
+        elif _canon_expr(endx['rhs']) == _canon_expr(base):
+            nexpr = endx['lhs']
+        else:
+            return None
+        if not _pure(nexpr) or self._roots_written(body, [base, nexpr]):
+            return None
+        # uses of p in the body
+        for x in walk(body):
+            if not isinstance(x, dict):
+                continue
+            if x.get('k') == 'assign' and _unwrap(x.get('lhs')).get('k') == 'ref' and _unwrap(x['lhs']).get('id') == pid:
+                return None
+            if x.get('k') == 'un' and x.get('op') in ('++', '--', '&') and isinstance(_unwrap(x.get('e')), dict) and \
+                    _unwrap(x['e']).get('k') == 'ref' and _unwrap(x['e']).get('id') == pid:
+                return None
+            if x.get('k') == 'index' and isinstance(_unwrap(x.get('base')), dict) and _unwrap(x['base']).get('k') == 'ref' and _unwrap(x['base']).get('id') == pid:
+                return None
+        self.count += 1
+        iname = 'i' if 'i' not in self.names else 'i_%d' % self.count
+        self.names.add(iname)
+        iid = 900000 + self.count
+        loc = s.get('l')
+        elem_t = t.get('pointee')
+
+        def iref():
+            return {'k': 'load', 't': INT_T, 'l': loc, 'e': {'k': 'ref', 'rk': 'local', 'id': iid, 'name': iname, 't': INT_T, 'lv': True, 'l': loc}}
+
+        def elem():
+            return {'k': 'index', 'base': base, 'idx': iref(), 't': elem_t, 'lv': True, 'l': loc}
+
+        def is_p(e):
+            u = _unwrap(e)
+            return isinstance(u, dict) and u.get('k') == 'ref' and u.get('rk') == 'local' and u.get('id') == pid
+
+        def fix(n):
+            if n.get('k') == 'member' and n.get('arrow') and is_p(n.get('base')):
+                return dict(n, arrow=False, base=elem())
+            if n.get('k') == 'un' and n.get('op') == '*' and is_p(n.get('e')):
+                return elem()
+            return None
+        new_body = _copy(body, fix)
+        # any remaining mention of p: the address of the current element
+        def fix2(n):
+            if n.get('k') == 'load' and isinstance(n.get('e'), dict) and n['e'].get('k') == 'ref' and n['e'].get('rk') == 'local' and n['e'].get('id') == pid:
+                return {'k': 'un', 'op': '&', 'e': elem(), 't': t, 'l': loc}
+            return None
+        new_body = _copy(new_body, fix2)
+        if any(isinstance(x, dict) and x.get('k') == 'ref' and x.get('rk') == 'local' and x.get('id') == pid for x in walk(new_body)):
+            return None
+        new_init = {'k': 'decl', 'l': loc, 'vars': [{'id': iid, 'name': iname, 't': INT_T, 'l': loc,
+                                                    'init': {'k': 'lit', 'cv': '0', 't': INT_T, 'l': loc}}]}
+        new_c = {'k': 'bin', 'op': uc['op'], 'lhs': iref(), 'rhs': nexpr, 't': uc.get('t'), 'l': uc.get('l')}
+        new_inc = {'k': 'un', 'op': '++', 'post': True, 't': INT_T, 'l': loc,
+                   'e': {'k': 'ref', 'rk': 'local', 'id': iid, 'name': iname, 't': INT_T, 'lv': True, 'l': loc}}
+        self.sites.append((self.f['qn'], 'pointer walk over %s' % v.get('name'), loc))
+        return dict(s, init=new_init, c=new_c, inc=new_inc, body=new_body, pointer_walk=v.get('name'))
